@@ -1567,9 +1567,32 @@ def _short(x):
     return s if len(s) < 1500 else s[:1500] + '...'
 
 
+def attribute(failure, open_findings):
+    """Oracle failures that belong to an open finding.  C02-segment-number-not-a-dimension: a valid read of an object of the
+    third-party stream `shared_seg` (ReferencedSegmentNumber not a dimension index) is refused.  (The oracle is silent on that
+    stream at present — ASSUMPTIONS — so nothing is attributed in a normal run; this keeps the class apart should the oracle be
+    made strict there.)"""
+    case = failure.get('case') if isinstance(failure, dict) else None
+    if not isinstance(case, dict):
+        return None
+    third = (case.get('obj') or {}).get('third') or []
+    if 'shared_seg' in third and str(failure.get('site', '')).endswith('/accept'):
+        for f in open_findings:
+            if f.get('id') == 'C02-segment-number-not-a-dimension':
+                return f['id']
+    return None
+
+
 def replay(ctx, case):
     """Re-run one stored case on the implementation; returns failure detail or None."""
     sub = type(ctx)(ctx.prop, ctx.tier, ctx.seed, 1, ctx.driver)
+    if 'repro' in case:
+        # witness of an open finding: a stand-alone script (exit 1 = the defect is still there)
+        import os
+        import subprocess
+        root = os.path.dirname(os.path.dirname(os.path.dirname(os.path.abspath(__file__))))
+        r = subprocess.run(['/venv/bin/python', os.path.join(root, case['repro'])], capture_output=True, text=True)
+        return [{'detail': (r.stdout or r.stderr)[-300:]}] if r.returncode == 1 else None
     if 'obj' in case:
         d = case['obj']
         obj = _build(sub, d)
